@@ -78,11 +78,13 @@ impl Case {
     }
 }
 
-pub const KINDS: [(&str, std::io::ErrorKind); 4] = [
+pub const KINDS: [(&str, std::io::ErrorKind); 5] = [
     ("Other", std::io::ErrorKind::Other),
     ("Interrupted", std::io::ErrorKind::Interrupted),
     ("WouldBlock", std::io::ErrorKind::WouldBlock),
     ("TimedOut", std::io::ErrorKind::TimedOut),
+    // a write accepts 0 bytes (Ok(0)); on other operations an ordinary error
+    ("ZeroWrite", std::io::ErrorKind::WriteZero),
 ];
 
 fn mk_env(with_shx: bool, prefill: bool) -> WEnv {
@@ -193,6 +195,7 @@ pub fn observe(pal: &Palette, case: &Case, base: &Baseline) -> Obs {
             chunk_env(&env, *chunk);
             let d = dev_of(&env, *dev);
             d.set_fault_kind(KINDS[*kind as usize].1);
+            d.set_zero_write_on_fault(*kind == 4);
             if *persistent {
                 d.fail_at(*k, FaultMode::Persistent);
             } else {
@@ -235,6 +238,7 @@ pub fn observe(pal: &Palette, case: &Case, base: &Baseline) -> Obs {
             let env2 = mk_env(case.with_shx, *prefill);
             chunk_env(&env2, *chunk);
             dev_of(&env2, *dev).set_fault_kind(KINDS[*kind as usize].1);
+            dev_of(&env2, *dev).set_zero_write_on_fault(*kind == 4);
             dev_of(&env2, *dev).fail_burst(*k, (*burst).max(1) as u64);
             let mut ops2 = case.ops[..=c].to_vec();
             ops2.push(WOp::F);
@@ -458,7 +462,7 @@ pub fn histories(maxlen: usize) -> Vec<Vec<WOp>> {
 const UNIFORM: [u64; 11] = [1, 2, 3, 4, 5, 7, 8, 9, 15, 16, 17];
 
 /// (kind, burst) beyond the plain one-shot ErrorKind::Other
-const KIND_BURSTS: [(u8, u8); 7] = [(1, 1), (1, 2), (1, 3), (1, 4), (2, 1), (2, 2), (3, 1)];
+const KIND_BURSTS: [(u8, u8); 8] = [(1, 1), (1, 2), (1, 3), (1, 4), (2, 1), (2, 2), (3, 1), (4, 1)];
 
 fn run_workload(ty: Ty, with_shx: bool, ops: &[WOp], chunks: &[u64], extra_maxlen: usize, ctx: &mut Ctx, tick: &dyn Fn()) {
     let pal = Palette::new(ty, None);
@@ -722,7 +726,7 @@ pub fn check(tier: Tier) -> i32 {
             tier,
             level: "fault_enumeration",
             engine: "writer histories on the real ShapeWriter over fault-injecting / short-writing devices; one execution per (workload, fault point or chunking schedule)",
-            rule: "workloads = every history over {Wa, Wb, F} up to the length bound x {with, without .shx} x types, ending in drop; fault points = every operation index k (write, seek or flush, counted on the fault-free log of this tree) on each device x {one-shot, persistent}; a one-shot fault inside a finalize is followed by the same history with that finalize retried; a second one-shot fault at every operation of that retry (same or other device) followed by a third call; every fault point again under uniform short writes (chunk 1 and 7; thorough 1, 3, 7, 16); a one-shot fault inside a finalize that is NOT retried at once: the history goes on and the files after drop equal the undisturbed run; for histories up to the extra bound: every fault point again with ErrorKind Interrupted (the operation failing 1..4 times in a row), WouldBlock (1..2 times) and TimedOut (an interrupted operation may be tried again, then the run must be indistinguishable from the undisturbed one incl. flushed state; every other kind must be reported), every fault point again on destinations that already hold longer stale content, and every unordered pair of one-shot faults anywhere in the history (files, up to their declared length, equal the undisturbed run of the history without the failed writes); chunking = uniform c in {1,2,3,4,5,7,8,9,15,16,17} (and 7..2^20 on shapes of 8193..70001 points) and, for every write call j, 'call j moves 1 byte' and 'call j moves len-1 bytes'; every case is non-trivial",
+            rule: "workloads = every history over {Wa, Wb, F} up to the length bound x {with, without .shx} x types, ending in drop; fault points = every operation index k (write, seek or flush, counted on the fault-free log of this tree) on each device x {one-shot, persistent}; a one-shot fault inside a finalize is followed by the same history with that finalize retried; a second one-shot fault at every operation of that retry (same or other device) followed by a third call; every fault point again under uniform short writes (chunk 1 and 7; thorough 1, 3, 7, 16); a one-shot fault inside a finalize that is NOT retried at once: the history goes on and the files after drop equal the undisturbed run; for histories up to the extra bound: every fault point again with ErrorKind Interrupted (the operation failing 1..4 times in a row), WouldBlock (1..2 times), TimedOut, and with writes that accept 0 bytes (an interrupted operation may be tried again, then the run must be indistinguishable from the undisturbed one incl. flushed state; every other kind must be reported), every fault point again on destinations that already hold longer stale content, and every unordered pair of one-shot faults anywhere in the history (files, up to their declared length, equal the undisturbed run of the history without the failed writes); chunking = uniform c in {1,2,3,4,5,7,8,9,15,16,17} (and 7..2^20 on shapes of 8193..70001 points) and, for every write call j, 'call j moves 1 byte' and 'call j moves len-1 bytes'; every case is non-trivial",
             bounds: json!({"max_history": tier.pick(4, 6), "max_history_kinds_pairs_stale": tier.pick(3, 4), "types": types.iter().map(|t| t.name()).collect::<Vec<_>>(), "uniform_chunks": UNIFORM}),
             exhaustive: true,
             assumptions: vec![
